@@ -50,6 +50,12 @@ def render(fmt, letters, k, variant, be):
     raise ValueError(fmt)
 
 
+# the four unit factors in every numeric form a caller may hold them in (Python int / float / complex, results of complex arithmetic; for a single
+# operator also NumPy scalars - NumPy scalar * list is NumPy's own element-wise product, not a library operation)
+SCALAR_FORMS = ((1, 0), (-1, 2), (1j, 1), (-1j, 3), (1.0, 0), (-1.0, 2), (complex(1), 0), (complex(-1), 2), (1j ** 2, 2), (1j * 1j * 1j, 3), (complex(0, 1), 1), (-(1j ** 3), 1))
+NP_SCALAR_FORMS = ((np.int64(-1), 2), (np.float64(-1.0), 2), (np.complex128(-1), 2), (np.complex128(1j), 1), (np.int64(1), 0), (np.complex128(-1j), 3))
+
+
 def f_parse(case):
     be, fmt = case['be'], case['fmt']
     Bk = B.backend(be)
@@ -90,7 +96,7 @@ def f_parse(case):
     # idempotence on Pauli input
     check(pm.pauli(P) is P, 'pauli(P) is not P', 'pauli-idempotent')
     # scalar factors; every derived operator must itself print / tokenize / re-parse (its stored phase must be usable, not only its value mod 4)
-    derived = [(c * P, dk, '%r * P' % c) for c, dk in ((1, 0), (-1, 2), (1j, 1), (-1j, 3))] + [(-P, 2, '-P'), (1j * (1j * P), 2, 'i*(i*P)'), (-(-1j * P), 1, '-(-i*P)')]
+    derived = [(c * P, dk, '%r * P' % (c,)) for c, dk in SCALAR_FORMS + (NP_SCALAR_FORMS if be == 'np' else ())] + [(-P, 2, '-P'), (1j * (1j * P), 2, 'i*(i*P)'), (-(-1j * P), 1, '-(-i*P)')]
     for Q, dk, what in derived:
         lq, kq = Bk.read_pauli(Q)
         check((lq == l).all() and kq == (kk + dk) % 4, '%s with P=%s gives %s' % (what, ref.show(l, kk), ref.show(lq, kq)), 'scalar')
@@ -154,7 +160,7 @@ def f_list(case):
     check(tk.shape == (n, N + 1) and (tk[:, :N] == L).all() and (tk[:, N] == np.array([CODE[int(x)] for x in K])).all(), 'tokenize of list wrong: %s' % tk.tolist(), 'token-values')
     rp = repr(P).split('\n')
     check(rp == [REPR_PREFIX[int(kk)] + ''.join(ref.LET[a] for a in ll) for ll, kk in zip(L, K)], 'repr(list) = %r' % rp, 'repr')
-    for c, dk in ((1, 0), (-1, 2), (1j, 1), (-1j, 3)):
+    for c, dk in SCALAR_FORMS:
         Qs = c * P
         lq, kq = Bk.read_list(Qs)
         check((lq == L).all() and (kq == (K + dk) % 4).all(), '%r * list wrong' % c, 'scalar')
